@@ -93,6 +93,9 @@ class LayerRuleAutomaton:
             if self.arch:
                 return "REJECT"
             self.arch = True
+            if arg == "EMPTY_ARCH":
+                # a LayeredArchitecture without any layer is an architecture all the same: no layer is defined in it
+                self.defined = set()
             return None
         if name == "layers_that":
             if not self.arch:
@@ -178,6 +181,6 @@ class DiagramRuleAutomaton:
     def final(self) -> str:
         if self.file is None:
             return "incomplete"
-        if self.file == "notags":
+        if self.file in ("notags", "endfirst", "startlast"):
             return "incomplete"
         return "complete"
